@@ -247,27 +247,43 @@ def r3_unit_switches(ctx, rep, R='C09.R3'):
              'layer; the unit-test layer is kept iff not --non-unit and (no --layer given or the '
              '--layer predicate accepts it)')
     go = ctx.model.func('options.get_options')
-    ifs = [st for st in go.node.body if isinstance(st, ast.If) and
-           ('options.unit' in norm(st.test) or 'options.non_unit' in norm(st.test))]
+    class _Undecided(Exception):
+        pass
+
+    def relevant(node):
+        return any(dotted(x) in ('options.unit', 'options.non_unit') for x in ast.walk(node))
+
+    def exec_block(stmts, env, state):
+        for st in stmts:
+            if isinstance(st, ast.If) and relevant(st):
+                v = eval_guard(st.test, env)
+                if v is UNKNOWN:
+                    raise _Undecided(norm(st.test))
+                exec_block(st.body if v else st.orelse, env, state)
+            elif isinstance(st, ast.Assign):
+                for t in st.targets:
+                    d = dotted(t)
+                    if d in env:
+                        if isinstance(st.value, ast.Constant):
+                            env[d] = st.value.value
+                        else:
+                            v = eval_guard(st.value, env)
+                            if v is UNKNOWN:
+                                raise _Undecided(norm(st))
+                            env[d] = v
+                    if d == 'options.layer' and 'UnitTests' in norm(st.value):
+                        state['forced'] = True
     table = {}
     for unit, non in itertools.product((False, True), repeat=2):
         env = {'options.unit': unit, 'options.non_unit': non}
-        forced = False
-        for st in ifs:
-            v = eval_guard(st.test, env)
-            if v is UNKNOWN:
-                rep.undecide(R, norm(st.test), 'cannot evaluate the unit switch condition')
-                return
-            if v:
-                for s in st.body:
-                    if isinstance(s, ast.Assign):
-                        for t in s.targets:
-                            d = dotted(t)
-                            if d in env and isinstance(s.value, ast.Constant):
-                                env[d] = s.value.value
-                            if d == 'options.layer':
-                                forced = 'UnitTests' in norm(s.value)
-        table[(unit, non)] = (env['options.unit'], env['options.non_unit'], forced)
+        state = {'forced': False}
+        try:
+            exec_block([st for st in go.node.body if (isinstance(st, ast.If) and relevant(st)) or
+                        (isinstance(st, ast.Assign) and any(dotted(t) in env for t in st.targets))], env, state)
+        except _Undecided as e:
+            rep.undecide(R, str(e), 'cannot evaluate the unit switch condition')
+            return
+        table[(unit, non)] = (env['options.unit'], env['options.non_unit'], state['forced'])
     want = {(False, False): (False, False, False), (True, False): (True, False, True),
             (False, True): (False, True, False), (True, True): (False, False, False)}
     rep.check(table == want, R, 'get_options: (-u, -f) decision table', 'the unit/non-unit switches '
